@@ -131,3 +131,44 @@ class Scratch:
         except ValueError:
             pass
         shutil.rmtree(self.path, ignore_errors=True)
+
+
+class StepLimit(Exception):
+    pass
+
+
+def count_steps(fn, args, ctx=None, cap: int = 5_000_000, timeout: float = 120.0):
+    """
+    Logical run length: the number of Python line events (interpreter and library frames alike) the call executes.
+    -> ('ok', steps) | ('limit', cap) | ('exc', name, steps) | ('timeout',)
+    A deterministic substitute for a wall-clock verdict: "the transformed program runs more than K times the steps of the
+    original" does not depend on machine load.  The wall-clock watchdog around it only makes the measurement inconclusive.
+    """
+    import sys
+    a = copy.deepcopy(args)
+    n = [0]
+
+    def tracer(frame, event, arg):
+        if event == 'line':
+            n[0] += 1
+            if n[0] > cap:
+                raise StepLimit()
+        return tracer
+    old = signal.signal(signal.SIGALRM, _alarm)
+    signal.setitimer(signal.ITIMER_REAL, timeout)
+    sys.settrace(tracer)
+    try:
+        fn(*a, ctx=ctx) if ctx is not None else fn(*a)
+        return ('ok', n[0])
+    except StepLimit:
+        return ('limit', cap)
+    except CallTimeout:
+        return ('timeout',)
+    except RecursionError:
+        return ('exc', 'RecursionError', n[0])
+    except Exception as e:
+        return ('exc', type(e).__name__, n[0])
+    finally:
+        sys.settrace(None)
+        signal.setitimer(signal.ITIMER_REAL, 0)
+        signal.signal(signal.SIGALRM, old)
